@@ -8,6 +8,7 @@
 #include "vc.h"
 #include <math.h>
 #include <fcntl.h>
+#include <sys/stat.h>
 #include "qlibc.h"
 
 static uint32_t rol32(uint32_t x, int r) { return (x << r) | (x >> (32 - r)); }
@@ -247,10 +248,98 @@ static void run_file(void) {
     vc_sample("qhashmd5_file size=32769 offset=1 nbytes=32768");
 }
 
+#ifdef C18_ENV
+/* ---- qhashmd5_file against every environment answer: the file system calls it makes are wrapped (--wrap=read,fstat)
+ * and each call is a choice point. Default answer 0 = the real call; deviations: read 1 = one byte only, 2 = half of the
+ * request, 3 = error EIO, 4 = EINTR, 5 = the file has been truncated (this and every later read return 0);
+ * fstat 1 = error EIO. All plans with at most D deviations are enumerated (deviation-bounded search). */
+ssize_t __real_read(int fd, void *buf, size_t n); int __real_fstat(int fd, struct stat *st);
+static int env_on, env_plan[64], env_nplan, env_pos, env_calls, env_trunc, env_menu[64], env_endless;
+static int env_choice(int menu) { int p = env_pos++; if (p >= 64) return 0; env_menu[p] = menu; return p < env_nplan ? env_plan[p] : 0; }
+ssize_t __wrap_read(int fd, void *buf, size_t n) {
+    if (!env_on) return __real_read(fd, buf, n);
+    if (++env_calls > 2000) { env_endless = 1; errno = EIO; return -1; }      /* let an endless loop end, reported below */
+    if (env_trunc) return 0;
+    switch (env_choice(6)) {
+        case 1: return __real_read(fd, buf, n > 1 ? 1 : n);
+        case 2: return __real_read(fd, buf, n > 1 ? n / 2 : n);
+        case 3: errno = EIO; return -1;
+        case 4: errno = EINTR; return -1;
+        case 5: env_trunc = 1; return 0;
+        default: return __real_read(fd, buf, n);
+    }
+}
+int __wrap_fstat(int fd, struct stat *st) {
+    if (!env_on) return __real_fstat(fd, st);
+    if (env_choice(2) == 1) { errno = EIO; return -1; }
+    return __real_fstat(fd, st);
+}
+static int lowest_fd(void) { int fd = open("/dev/null", O_RDONLY); close(fd); return fd; }
+static long n_plans, n_dev0, n_dev1, n_dev2, n_outcome_true, n_outcome_false;
+static void env_run(const char *path, const uint8_t *content, int size, long off, long nb, int D) {
+    int plan[64], nplan = 0;
+    /* iterative DFS over plans: run, then extend at every choice point after the prefix */
+    typedef struct { int plan[12]; int n; } item_t;
+    static item_t stack[20000]; int sp = 0; stack[sp++] = (item_t){{0}, 0};
+    while (sp > 0) {
+        item_t it = stack[--sp];
+        memcpy(plan, it.plan, sizeof it.plan); nplan = it.n;
+        int ndev = 0, hard = 0, eintr = 0, trunc = 0; for (int i = 0; i < nplan; i++) if (plan[i]) ndev++;
+        char key[160], *k = key; k += sprintf(k, "fileenv:%d:%ld:%ld:", size, off, nb); for (int i = 0; i < nplan; i++) k += sprintf(k, "%d", plan[i]);
+        if (!vc_case("qhashmd5_file", key)) continue;
+        n_eval++; n_nontrivial++; n_plans++; if (ndev == 0) n_dev0++; else if (ndev == 1) n_dev1++; else n_dev2++;
+        memcpy(env_plan, plan, sizeof plan); env_nplan = nplan; env_pos = env_calls = env_trunc = env_endless = 0;
+        uint8_t m1[16], m2[16]; memset(m1, 0, 16);
+        int fd0 = lowest_fd();
+        env_on = 1; errno = 0; bool ok = qhashmd5_file(path, off, nb, m1); env_on = 0;
+        int fd1 = lowest_fd(), npoints = env_pos;
+        for (int i = 0; i < nplan && i < npoints; i++) { if (env_menu[i] == 2 ? plan[i] == 1 : plan[i] == 3) hard = 1; if (env_menu[i] == 6 && plan[i] == 4) eintr = 1; if (env_menu[i] == 6 && plan[i] == 5) trunc = 1; }
+        long cnt = nb == 0 ? size - off : nb;
+        if (cnt == 0) trunc = 0;                      /* nothing to read: the read loop is not entered */
+        /* within the property: short reads only - the digest may not depend on how the bytes arrive. Failing calls and a file
+         * that shrinks while it is read are outside C18 (the byte range no longer exists): class robust:*, not counted for C18 */
+        if (env_endless) vc_viol("robust:md5file-endless", "%s: still calling read() after 2000 calls (file truncated while being read)", key);
+        else if (hard || trunc) { if (ok) vc_viol("md5file:accept", "%s: returned true although %s", key, hard ? "a system call failed" : "the file ended early"); }
+        else if (!ok) { if (!eintr) vc_viol("md5file:accept", "%s: returned false although every byte could be read (short reads only)", key); }
+        else { ref_md5(content + off, cnt, m2); if (memcmp(m1, m2, 16)) vc_viol("md5file:value", "%s: digest differs from MD5 of that byte range", key); }
+        if (ok) n_outcome_true++; else n_outcome_false++;
+        if (fd1 != fd0) { vc_viol("robust:md5file-fd-leak", "%s: a file descriptor stays open after the call (returned %d)", key, ok); for (int f = fd0; f <= fd1; f++) close(f); }
+        if (vc_asan_check()) vc_viol("asan:md5file", "%s", key);
+        vc_case_end();
+        /* children: deviate at one later choice point */
+        if (ndev < D) for (int i = npoints - 1; i >= nplan && i < 12; i--) for (int a = env_menu[i] - 1; a >= 1; a--) {
+            if (sp >= 20000) { vc_exhaustive = 0; break; }
+            item_t c = {{0}, i + 1}; memcpy(c.plan, plan, sizeof(int) * nplan); c.plan[i] = a; stack[sp++] = c;
+        }
+    }
+}
+static void run_fileenv(int D) {
+    char path[256]; snprintf(path, sizeof path, "%s/c18_env_%d.bin", getenv("TMPDIR") ? getenv("TMPDIR") : "/tmp", (int)getpid());
+    int sizes[] = {0, 1, 100, 32768, 32769, 70000};
+    for (size_t si = 0; si < sizeof sizes / sizeof sizes[0]; si++) {
+        int size = sizes[si]; uint8_t *content = malloc(size + 1);
+        for (int i = 0; i < size; i++) content[i] = (uint8_t)((i * 37 + 11) % 251);
+        int fd = open(path, O_WRONLY | O_CREAT | O_TRUNC, 0600);
+        if (fd < 0 || write(fd, content, size) != size) { printf("NOTE\tcannot write temp file\n"); vc_stat_add("anchor_fail", 1); return; }
+        close(fd);
+        env_run(path, content, size, 0, 0, D);
+        if (size > 1) { env_run(path, content, size, 1, size - 1, D); env_run(path, content, size, 0, size / 2, D); }
+        free(content);
+    }
+    unlink(path);
+    vc_stat_add("env_plans", n_plans); vc_stat_add("env_plans_0_deviations", n_dev0); vc_stat_add("env_plans_1_deviation", n_dev1); vc_stat_add("env_plans_2_deviations", n_dev2);
+    vc_stat_add("env_returned_true", n_outcome_true); vc_stat_add("env_returned_false", n_outcome_false);
+    vc_sample("qhashmd5_file(70000 bytes) with read answers [full, 1 byte, truncated]: must return false, not loop");
+}
+#endif
+
 static int replay(const char *key) {
     if (!strncmp(key, "small:", 6)) { uint8_t in[8]; int n = vc_unhex(key + 6, in); small_case(in, n); }
     else if (!strncmp(key, "grid:", 5)) { int l, a, c, p; sscanf(key + 5, "%d:%d:%d:%d", &l, &a, &c, &p); grid_case(l, a, c, p); }
     else if (!strncmp(key, "file:", 5)) run_file();
+#ifdef C18_ENV
+    else if (!strncmp(key, "fileenv:", 8)) { vc_viol_print_per_class = 3; run_fileenv(2); }
+#endif
     return 0;
 }
 static int worker(int argc, char **argv) {
@@ -260,6 +349,9 @@ static int worker(int argc, char **argv) {
     if (!strcmp(argv[1], "small")) run_small(atoi(argv[2]), atoi(argv[3]), atoi(argv[4]));
     else if (!strcmp(argv[1], "grid")) run_grid(atol(argv[2]), atol(argv[3]), argc > 4 && atoi(argv[4]));
     else if (!strcmp(argv[1], "file")) run_file();
+#ifdef C18_ENV
+    else if (!strcmp(argv[1], "fileenv")) run_fileenv(atoi(argv[2]));
+#endif
     vc_stat_add("evaluations", n_eval);
     vc_stat_add("nontrivial", n_nontrivial);
     return 0;
